@@ -233,10 +233,16 @@ fn make_base(prof: &Profile, seed: u64, i: usize, real: Option<&mut dyn Write>) 
     let displaced = !scripted && (matches!(prof.name, "entry-sat" | "entry-full" | "entry") && rng.chance(1, 8) || prof.name == "broken-entry" && rng.chance(1, 3));
     // HashTable whose last remaining element is displaced (gen::last_displaced_script)
     let lastd = matches!(prof.name, "table" | "table-churn") && lay != "zst" && rng.chance(1, 8);
+    // HashTable: displaced-group construction through insert_unique
+    let tdisp = !lastd && matches!(prof.name, "table" | "table-churn") && lay != "zst" && rng.chance(1, 8);
+    // map: last remaining element displaced, updated in place through replace_entry_with
+    let lastm = !scripted && !displaced && matches!(prof.name, "entry" | "entry-full") && rng.chance(1, 10);
+    // map filled to capacity and emptied into tombstones only: allocated, items == 0, growth_left == 0
+    let tombfull = matches!(prof.name, "mixed" | "iter" | "reserve") && lay != "zst" && rng.chance(1, 10);
     // two maps with different bucket counts and equal capacity() (gen::capacity_twin_script)
     let twin = prof.name == "clone" && rng.chance(1, 6);
-    let kind = if scripted || displaced || twin || lastd { "sequential" } else { kind };
-    let universe = if displaced || lastd { 4096 } else if scripted || twin { 1024 } else { universe };
+    let kind = if scripted || displaced || twin || lastd || tdisp || lastm || tombfull { "sequential" } else { kind };
+    let universe = if displaced || lastd || tdisp || lastm || tombfull { 4096 } else if scripted || twin { 1024 } else { universe };
     let kind = if prof.name == "churn-window" && rng.chance(2, 3) { "sequential" } else { kind };
     // table-churn: long probe chains (three and more groups) inside tables of 64-256 buckets, so that the
     // in-place rehash of a HashTable has to judge elements whose ideal group is several probe steps away
@@ -293,6 +299,18 @@ fn make_base(prof: &Profile, seed: u64, i: usize, real: Option<&mut dyn Write>) 
         g.script = gen::stale_slot_script(&mut rng);
     }
     let mut steps = steps;
+    if tdisp {
+        g.script = gen::displaced_group_script_for(&mut rng, false, true);
+        steps = steps.max(g.script.len() + 10);
+    }
+    if tombfull {
+        g.script = gen::tombstone_full_script(&mut rng);
+        steps = steps.max(g.script.len() + 15);
+    }
+    if lastm {
+        g.script = gen::last_displaced_map_script(&mut rng);
+        steps = steps.max(g.script.len() + 10);
+    }
     if lastd {
         g.script = gen::last_displaced_script(&mut rng);
         steps = steps.max(g.script.len() + 10);
